@@ -23,7 +23,7 @@ ASSUMPTIONS = [
     "reference model (jslmc/refmodel.py) transcribes the documented dispatching semantics",
 ]
 BOUNDS = {
-    "quick": "K3 complete x 17 filter configs; K3r (machine lists in descending order) x 5 configs; K4[seed%16::16] x {none, 4 singles}; probes P x {none, dominated+non_idle}",
+    "quick": "K3 complete x 17 filter configs; K3r (machine lists in descending order) x 5 configs; K4[seed%16::16] x {none, 4 singles}; K5 (five operations)[seed%128::128] x {none, default pair}; probes P x {none, dominated+non_idle}",
     "thorough": "K3, K4 complete x 17 filter configs (K4: none + 4 singles + pairs on [::4]); M3 x {none,dominated}; NF5[::8]; probes x 5 configs; TLC cross-check on 3 instances",
 }
 
@@ -43,6 +43,8 @@ def cases(tier, seed):
             out.append(("tree", spec, tuple(CFG5)))
         for spec in F.P_ALL + F.P_HUGE:
             out.append(("tree", spec, ((), DEFAULT_PAIR)))
+        for spec in F.sliced(F.K5(), seed % 128, 128):
+            out.append(("tree", spec, ((), DEFAULT_PAIR)))
         out.append(("tlc", 1))
     else:
         for i, spec in enumerate(F.K4()):
@@ -51,6 +53,8 @@ def cases(tier, seed):
             out.append(("tree", spec, ((), ("dominated_operations",))))
         for spec in F.sliced(F.NF5(), seed % 8, 8):
             out.append(("tree", spec, ((),)))
+        for spec in F.sliced(F.K5(), seed % 16, 16):
+            out.append(("tree", spec, ((), DEFAULT_PAIR)))
         for spec in F.P_ALL:
             out.append(("tree", spec, tuple(CFG5) + (DEFAULT_PAIR,)))
         for k in range(3):
